@@ -1957,10 +1957,12 @@ def roi_to_subset_state(roi, x_att=None, y_att=None, x_categories=None, y_catego
 
     elif x_categories is not None or y_categories is not None:
 
-        if isinstance(roi, RectangularROI):
+        if isinstance(roi, RectangularROI) and roi.theta % np.pi == 0:
 
             # In this specific case, we can decompose the rectangular ROI into
             # two RangeROIs that are combined with an 'and' logical operation.
+            # This is only possible if the rectangle is not rotated, otherwise
+            # it is treated as polygon-like below.
 
             range1 = XRangeROI(roi.xmin, roi.xmax)
             range2 = YRangeROI(roi.ymin, roi.ymax)
